@@ -346,3 +346,144 @@ theorem see_idem (w : IW) (r : Rec) : (w.see r).see r = w.see r := by
   congr 1 <;> (split <;> split <;> omega)
 
 end Logrange.WriteLoopM
+
+/-! ## the hull carried by every notification -/
+
+namespace Logrange.JournalW
+
+/-- the iterator state after one `Chunk.write` call: every record it wrote has been handed out (`see`) once, in order -/
+theorem chunkWrite_state {σ : Type} (maxSize : Nat) (see : σ → Rec → σ) :
+    ∀ (recs : List Rec) (c : Chunk) (st : σ) (n : Nat),
+      n ≤ (chunkWrite maxSize see c recs st n).2.1 ∧
+      (chunkWrite maxSize see c recs st n).2.2.2.1
+        = (recs.take ((chunkWrite maxSize see c recs st n).2.1 - n)).foldl see st := by
+  intro recs
+  induction recs with
+  | nil => intro c st n; by_cases h : c.size ≥ maxSize <;> simp [chunkWrite, h]
+  | cons r rest ih =>
+    intro c st n
+    by_cases h : c.size ≥ maxSize
+    · simp [chunkWrite, h]
+    · obtain ⟨h1, h2⟩ := ih ⟨c.recs ++ [r.data], c.size + hdrSize + r.data.length⟩ (see st r) (n + 1)
+      simp only [chunkWrite, h, ↓reduceIte]
+      refine ⟨by omega, ?_⟩
+      rw [h2]
+      generalize (chunkWrite maxSize see ⟨c.recs ++ [r.data], c.size + hdrSize + r.data.length⟩ rest (see st r) (n + 1)).2.1 = n' at h1 ⊢
+      have : n' - n = (n' - (n + 1)) + 1 := by omega
+      rw [this, List.take_succ_cons, List.foldl_cons]
+
+/-- … and after one `journal.Write` call (any fuel, any exclusion) -/
+theorem journalWriteGo_state {σ : Type} (maxSize : Nat) (see : σ → Rec → σ) :
+    ∀ (fuel : Nat) (j : Journal) (excl : Nat) (recs : List Rec) (st : σ),
+      (journalWriteGo maxSize see fuel j excl recs st).st
+        = (recs.take (journalWriteGo maxSize see fuel j excl recs st).n).foldl see st := by
+  intro fuel
+  induction fuel with
+  | zero => intro j excl recs st; simp [journalWriteGo]
+  | succ fuel ih =>
+    intro j excl recs st
+    obtain ⟨k, _, _, h2, h3, _, _, _⟩ :=
+      chunkWrite_spec maxSize see recs ((getChunkForWrite j excl).getLastD default) st 0
+    obtain ⟨_, hs⟩ := chunkWrite_state maxSize see recs ((getChunkForWrite j excl).getLastD default) st 0
+    simp only [journalWriteGo]
+    generalize chunkWrite maxSize see ((getChunkForWrite j excl).getLastD default) recs st 0 = res at h2 h3 hs
+    obtain ⟨c', n, rest, st', full⟩ := res
+    simp only [Nat.zero_add, Nat.sub_zero] at h2 h3 hs
+    subst h2
+    by_cases hn : n > 0
+    · simp only [hn, ↓reduceIte]; exact hs
+    · have hk : n = 0 := by omega
+      subst hk
+      simp only [List.take_zero, List.foldl_nil, List.drop_zero] at hs h3
+      subst hs h3
+      simp only [Nat.lt_irrefl, ↓reduceIte]
+      split
+      · split
+        · simp
+        · exact ih _ _ _ _
+      · simp
+
+end Logrange.JournalW
+
+namespace Logrange.WriteLoopM
+open Logrange.JournalW
+
+/-- the `iwrapper` state after handing out `l` (from a fresh wrapper) -/
+def hullOf (l : List Rec) : IW := l.foldl IW.see {}
+
+/-- every notification carries the hull of ALL records of the batch handed out up to its last record: `seen` are the
+records written before, `rest` the records still to write, a notification for `n = last+1-first` records covers
+`seen ++ rest.take n` -/
+def CallsHull : List Rec → List Rec → List IndexCall → Prop
+  | _, _, [] => True
+  | seen, rest, c :: cs =>
+    c.minTs = (hullOf (seen ++ rest.take (c.last + 1 - c.first))).minTs ∧
+    c.maxTs = (hullOf (seen ++ rest.take (c.last + 1 - c.first))).maxTs ∧
+    CallsHull (seen ++ rest.take (c.last + 1 - c.first)) (rest.drop (c.last + 1 - c.first)) cs
+
+theorem hullOf_append (a b : List Rec) : hullOf (a ++ b) = b.foldl IW.see (hullOf a) := by
+  simp [hullOf, List.foldl_append]
+
+theorem serviceWriteLoop_hull (maxSize : Nat) (hm : 1 ≤ maxSize) : ∀ (fuel : Nat) (j : Journal) (recs : List Rec)
+    (iw : IW) (o : WOut) (seen : List Rec), recs.length < fuel →
+    (∀ x rest', recs = x :: rest' → iw.see x = (hullOf seen).see x) →
+    ∃ nc, (serviceWriteLoop maxSize fuel j recs iw o).2.calls = o.calls ++ nc ∧ CallsHull seen recs nc := by
+  intro fuel
+  induction fuel with
+  | zero => intro j recs iw o seen h; simp at h
+  | succ fuel ih =>
+    intro j recs iw o seen hf hiw
+    obtain ⟨k, hs⟩ := journalWrite_spec maxSize IW.see hm j recs iw
+    have hst : (journalWrite maxSize IW.see j recs iw).st
+        = (recs.take (journalWrite maxSize IW.see j recs iw).n).foldl IW.see iw := journalWriteGo_state maxSize IW.see 3 j 0 recs iw
+    simp only [serviceWriteLoop]
+    generalize journalWrite maxSize IW.see j recs iw = r at hs hst
+    rw [hs.n] at hst
+    simp only [hs.err, Bool.false_eq_true, ↓reduceIte]
+    by_cases hk : 1 ≤ k
+    · obtain ⟨hp2, _⟩ := hs.poss hk
+      have hk' : k > 0 := by omega
+      -- the state after the write is the hull of everything handed out so far
+      have hhull : r.st = hullOf (seen ++ recs.take k) := by
+        cases hrecs : recs with
+        | nil => have := hs.le; simp [hrecs] at this; omega
+        | cons x rest' =>
+          have hx := hiw x rest' hrecs
+          obtain ⟨k1, rfl⟩ : ∃ k1, k = k1 + 1 := ⟨k - 1, by omega⟩
+          rw [hst, hrecs, List.take_succ_cons, List.foldl_cons, hx, hullOf_append, List.foldl_cons]
+      have hcalls : (noteWrite o r).calls = o.calls ++ [⟨r.pos.2 - k, r.pos.2 - 1, r.pos.1, r.st.minTs, r.st.maxTs⟩] := by
+        simp only [noteWrite, hs.n, hk', ↓reduceIte]
+      have hn : r.pos.2 - 1 + 1 - (r.pos.2 - k) = k := by omega
+      cases hrest : r.rest with
+      | nil =>
+        simp only []
+        refine ⟨[⟨r.pos.2 - k, r.pos.2 - 1, r.pos.1, r.st.minTs, r.st.maxTs⟩], hcalls, ?_⟩
+        simp only [CallsHull, hn, hhull, and_self]
+      | cons y ys =>
+        simp only []
+        have hlen : r.rest.length < fuel := by
+          have := hs.le; rw [hs.rest]; simp; omega
+        have hdrop : recs.drop k = y :: ys := by rw [← hs.rest, hrest]
+        obtain ⟨nc, e1, e2⟩ := ih r.j r.rest (r.st.see y) (noteWrite o r) (seen ++ recs.take k) hlen (by
+          intro x rest' hx
+          rw [hrest] at hx
+          injection hx with hx _
+          subst hx
+          rw [see_idem, hhull])
+        rw [hrest] at e1
+        refine ⟨⟨r.pos.2 - k, r.pos.2 - 1, r.pos.1, r.st.minTs, r.st.maxTs⟩ :: nc, by rw [e1, hcalls]; simp, ?_⟩
+        simp only [CallsHull, hn, hhull, true_and]
+        rw [hs.rest] at e2
+        exact e2
+    · have hk0 : k = 0 := by omega
+      have hnil : recs = [] := by
+        cases recs with
+        | nil => rfl
+        | cons a as => have := hs.pos1 (by simp); omega
+      subst hnil
+      have hn : ¬ r.n > 0 := by rw [hs.n]; omega
+      have hrest : r.rest = [] := by rw [hs.rest]; simp
+      simp only [hrest, noteWrite, hn, ↓reduceIte]
+      exact ⟨[], by simp, trivial⟩
+
+end Logrange.WriteLoopM
